@@ -143,11 +143,16 @@ Definition flush_if_needed : dm unit :=
                 let o := bout s + FRAME in
                 if FRAME <? o then fail (IErr 3) else put (upd_win s (win s) 0 o)
               else ret tt.
+(* ghost checks: the model "goes wrong" with IErr OOBZ wherever inflate would index its 32 KiB window outside [0, 32768);
+   Proofs/MszipSafe.v shows it never does *)
+Definition OOBZ : N := 96.
 Definition out_byte (b : N) : dm unit :=
-  s <- get ;; _ <- put (upd_win s (tset WD (win s) (wpos s) b) (wpos s + 1) (bout s)) ;; flush_if_needed.
+  s <- get ;; if FRAME <=? wpos s then fail (IErr OOBZ) else      (* ghost: window[window_posn++] = b *)
+  _ <- put (upd_win s (tset WD (win s) (wpos s) b) (wpos s + 1) (bout s)) ;; flush_if_needed.
 
 Fixpoint copy_match (n : nat) (mpos : N) : dm unit :=
   match n with O => ret tt | S n' =>
+    if FRAME <=? mpos then fail (IErr OOBZ) else                  (* ghost: window[match_posn] *)
     s <- get ;; _ <- out_byte (tget WD (win s) mpos 0 (* the window is cleared at initialisation *)) ;;
     copy_match n' (N.land (mpos + 1) (FRAME - 1)) end.
 
@@ -227,6 +232,7 @@ Fixpoint block_loop (fuel : nat) : dm unit :=
       de <- read_bits (nthN dist_extrabits dcode) ;;
       let distance := de + nthN dist_offsets dcode in
       s2 <- get ;;
+      if FRAME + wpos s2 <? distance then fail (IErr OOBZ) else    (* ghost: match_posn would wrap below zero *)
       let mpos := (if wpos s2 <? distance then FRAME else 0) + wpos s2 - distance in
       _ <- copy_match (N.to_nat length) mpos ;; block_loop f
   end.
@@ -234,7 +240,8 @@ Fixpoint block_loop (fuel : nat) : dm unit :=
 (* stored block: copy `length` bytes, at most up to the end of the window at a time *)
 Fixpoint put_bytes (l : list N) : dm unit :=
   match l with [] => ret tt | b :: r =>
-    s <- get ;; _ <- put (upd_win s (tset WD (win s) (wpos s) b) (wpos s + 1) (bout s)) ;; put_bytes r end.
+    s <- get ;; if FRAME <=? wpos s then fail (IErr OOBZ) else    (* ghost *)
+    _ <- put (upd_win s (tset WD (win s) (wpos s) b) (wpos s + 1) (bout s)) ;; put_bytes r end.
 Fixpoint stored_copy (fuel : nat) (length : N) : dm unit :=
   match fuel with O => fail (IErr 99) | S f =>
     if length =? 0 then ret tt else
